@@ -3,7 +3,7 @@ CONSTANTS
   Inst = {a, b}
   Sh = {1}
   MaxClaims = 4
-  MaxDup = 2
+  MaxDup = 1
   MaxSnap = 0
   AllowLeave = FALSE
   AllowRelease = TRUE
